@@ -147,6 +147,7 @@ func (in *Interp) RunHarness(fn *ssa.Function, res *HarnessResult) {
 		in.pc = nil
 		in.known = map[*Term]bool{}
 		in.unsatCache = map[*Term]bool{}
+		in.satCache = map[*Term]bool{}
 		in.decLog = nil
 		in.prefix = prefix
 		in.events = nil
